@@ -213,6 +213,7 @@ func newWorld(node gen.Node, specs []AppSpec) *world {
 			kids: make([]int, s.N), pids: make([]gen.PID, s.N)}
 		copy(a.kids, s.Kids)
 		a.fail.Store(-1)
+		a.selfbusy = -1
 		w.apps = append(w.apps, a)
 	}
 	for i, s := range specs {
